@@ -123,6 +123,16 @@ func NonEmptyBlob(t *rapid.T, label string, maxLen int) []byte {
 	return b
 }
 
+// ShortBytesId: a prepared-statement or metadata id ([short bytes], 1..65535 bytes): mostly short, sometimes at the
+// boundaries of the unsigned 16-bit length prefix.
+func ShortBytesId(t *rapid.T, label string) []byte {
+	if rapid.IntRange(0, 11).Draw(t, label+"/boundary") == 0 {
+		n := rapid.SampledFrom([]int{255, 256, 32767, 32768, 40000, 65535}).Draw(t, label+"/len")
+		return expand(rapid.IntRange(0, 3).Draw(t, label+"/class"), rapid.Uint64().Draw(t, label+"/seed"), n)
+	}
+	return NonEmptyBlob(t, label, 64)
+}
+
 // NullableBlob: nil (wire null), empty, or filled - for [bytes]/[value] positions.
 func NullableBlob(t *rapid.T, label string, maxLen int) []byte {
 	switch rapid.IntRange(0, 5).Draw(t, label+"/null") {
